@@ -344,3 +344,9 @@ package types
 //@             (referrer.ArtifactType == "" && referrer.Config != nil ==> rd.ArtifactType == referrer.Config.MediaType)
 //@   ensures [annotations-from-manifest]{C07,C17} err == nil ==> rd.Annotations == referrer.Annotations
 //@   ensures [subject-from-manifest]{C07,C17} err == nil ==> referrer.Subject != nil && subject.Digest == referrer.Subject.Digest && subject.Digest != ""
+
+//@ -- the base media type has no parameters: whatever follows the first ';' is gone, with or without a space after it
+//@ -- (Accept: type;q=0.9 must match the stored type, C02; Content-Type with a charset parameter, C04)
+//@ func MediaTypeBase(orig string) (base string)
+//@   props C02 C04
+//@   ensures [parameters-stripped]{C02,C04} !contains(base, ";")
